@@ -27,7 +27,10 @@ def gen_cases(ctx, n):
     sizes = 0
     forced = [dict(n_slices=0), dict(n_slices=1, kind="Cell"), dict(n_slices=2, kind="CumulativeCell"),
               dict(n_slices=3, kind="IncrementalCell"), dict(n_slices=4), dict(size="big", n_slices=1),
-              dict(size="big", n_slices=2, kind="IncrementalCell")]
+              dict(size="big", n_slices=2, kind="IncrementalCell")] + \
+             [dict(n_slices=2, sibling=v) for v in B.SIBLING_VARIANTS] + \
+             [dict(n_slices=2, force=("nested",)), dict(n_slices=2, force=("semi", "late")),
+              dict(n_slices=3, kind="Cell", force=("farspan",)), dict(n_slices=2, kind="CumulativeCell", force=("farspan",))]
     i = 0
     while len(cases) < n:
         kw = forced[i] if i < len(forced) else {}
